@@ -55,16 +55,22 @@ func (d *intDecoder) parseInt(b []byte) (int64, error) {
 	if maxDigit > pow10i64Len {
 		return 0, fmt.Errorf("invalid length of number")
 	}
-	sum := int64(0)
+	sum := uint64(0)
 	for i := 0; i < maxDigit; i++ {
-		c := int64(b[i]) - 48
-		digitValue := pow10i64[maxDigit-i-1]
+		c := uint64(b[i]) - 48
+		digitValue := uint64(pow10i64[maxDigit-i-1])
 		sum += c * digitValue
 	}
 	if isNegative {
-		return -1 * sum, nil
+		if sum > 1<<63 {
+			return 0, fmt.Errorf("number out of range")
+		}
+		return -int64(sum), nil
 	}
-	return sum, nil
+	if sum > 1<<63-1 {
+		return 0, fmt.Errorf("number out of range")
+	}
+	return int64(sum), nil
 }
 
 var (
